@@ -411,3 +411,20 @@ Definition capacity (cpus : N) : N := cpus + 1 + cpus / 8.
 (* the live jobs attributed to server sid *)
 Definition live_on (sid : N) (s : st) : list (N * (N * jstate)) :=
   filter (fun kv => fst (snd kv) =? sid) (jobs s).
+
+(* ---------- the locks each handler piece runs under (numbers: the global order, jobs = 0 < servers = 1) ----------
+   This is what makes the pieces atomic with respect to each other, and what `lock_both` / the poisoning
+   rules above assume; Properties/C18Locks.v checks it against the acquisition sequences read from the Rust
+   source (Gen/C18Locks.v) and proves that this discipline cannot deadlock. *)
+Definition lock_jobs : N := 0.
+Definition lock_servers : N := 1.
+
+Definition piece_locks (m : msg) : list N :=
+  match m with
+  | MAllocBegin _ => [lock_servers]                     (* choice + reservation *)
+  | MAllocEndFail _ => [lock_servers]                   (* the with_context closure *)
+  | MAllocEndOk _ _ => [lock_jobs; lock_servers]        (* re-validation + recording *)
+  | MHeartbeat _ _ _ _ => [lock_jobs; lock_servers]
+  | MUpdate _ _ _ => [lock_jobs; lock_servers]
+  | MStatus => [lock_jobs; lock_servers]
+  end.
